@@ -108,7 +108,20 @@ NASTY = [0.0, -0.0, 1.0, -1.0, 0.1, 1 / 3, 1e-300, 5e-324, 1.7976931348623157e30
 
 def mutate(rng, ind, others):
     import numpy as np
-    k = rng.randrange(7)
+    k = rng.choice([0, 1, 2, 3, 4, 5, 6, 7, 7, 7, 8, 8, 9])
+    # in-place changes (the object graph stays the same, only a leaf changes): what algorithms do when they update a feature list,
+    # append to custom data or patch one signed cost
+    if k == 7 and isinstance(ind.custom, dict) and "nested" in ind.custom:
+        ind.custom["nested"]["x"][1].append(rng.choice(NASTY))
+        ind.custom["n"] = ind.custom.get("n", 0) + 1
+        return
+    if k == 8 and ind.costs_signed:
+        ind.costs_signed[0] = rng.choice(NASTY)
+        return
+    if k == 9 and isinstance(ind.features.get("velocity"), list):
+        ind.features["velocity"][0] = np.float64(rng.choice(NASTY))
+        return
+    k = k % 7
     if k == 0:
         ind.costs = [rng.choice(NASTY) for _ in range(rng.randint(1, 3))]
         ind.costs_signed = [rng.choice([1, -1]) * c for c in ind.costs] + [rng.random() < 0.5]
@@ -198,6 +211,11 @@ class Histories(Part):
             a, d = op["a"], op["d"]
             if a == "create":
                 ind = Individual((list(shared) if rng.random() < 0.5 else [rng.choice(NASTY), rng.choice(NASTY)]) + [0.5] * (npar - 2))
+                if rng.random() < 0.6:
+                    # born with data, so that the first change after a synchronisation can be an in-place one
+                    ind.costs = [rng.choice(NASTY), rng.choice(NASTY)]
+                    ind.costs_signed = [ind.costs[0], -ind.costs[1], True]
+                    ind.custom = {"note": "init", "nested": {"x": [0.5, [1, 2, {"y": 1.5}]]}, "n": 0, "flag": False}
                 inds[d] = ind
                 problem.individuals.append(ind)
                 trace.append({"ev": "mutate", "id": int(ind.id), "fp": fp.of(ind)})
